@@ -851,6 +851,97 @@ def c14_2e(ck, prog):
     r.note('%d locally filled lists examined' % n)
 
 
+def c14_2f(ck, prog):
+    r = ck.rule('C14.2f', 'a local DBusError that a callee may have filled in is looked at or handed on before it goes '
+                'out of scope: after a call given &err, every exit has tested, moved or freed err (the caller '
+                'learns the failure, and the error message is not leaked)', 'PAIR',
+                breaks='an out-of-memory (or other) failure reported through a local error is swallowed: the '
+                       'operation carries on with the wrong verdict and the error string is leaked', floor=8)
+    CONSUME = {'dbus_error_free', 'dbus_move_error', 'dbus_error_is_set', 'dbus_error_has_name',
+               'dbus_set_error_from_message', '_dbus_error_from_errno'}
+    n = 0
+    for fn in lib.prod_funcs(prog, {f for f in LEAK_FILES if f.startswith('bus/')} | {'bus/bus.c'}):
+        errs = {}
+        for b, i, ev in fn.events():
+            if ev['ev'] == 'decl' and ev['var'].get('kind') == 'local' and (ev['var'].get('t') or '') == 'DBusError':
+                errs[ev['var']['id']] = ev['var']['name']
+        for vid, vname in errs.items():
+            n += 1
+
+            def on_event(user, ev, ctx, vid=vid):
+                for top in ([ev.get('e')] if isinstance(ev.get('e'), dict) else []):
+                    if any(x.get('k') == 'member' and is_ref(x.get('base')) and x['base'].get('id') == vid
+                           for x in walk(top)):
+                        return 'clean'          # error.name / error.message read directly: it was looked at
+                if ev['ev'] != 'call':
+                    return user
+                c = ev['e']
+                mine = [k for k, a in enumerate(c['args']) if a.get('k') == 'un' and a.get('op') == '&'
+                        and is_ref(a['e']) and a['e'].get('id') == vid]
+                if not mine:
+                    return user
+                cal = c.get('callee') or ''
+                if cal in CONSUME or cal == 'dbus_error_init':
+                    return 'clean'
+                if cal.startswith('_dbus_verbose') or cal.startswith('_dbus_assert') or cal in ('_dbus_warn', 'bus_context_log'):
+                    return user
+                # handed to a callee as its error out-parameter (or for it to consume)
+                return ('maybe', c['id'], c['line'], cal)
+
+            def on_exit(user, ctx, ret, ev, vname=vname):
+                # the callee failed on this path, or its verdict is kept in a variable no branch ever tests
+                # (then only the error object can tell a failure from a negative answer)
+                k = ctx.result_known(user[1]) if isinstance(user, tuple) else None
+                if k == ('ne', 0):
+                    k = True               # pointer result compared with NULL
+                elif k == ('eq', 0):
+                    k = False
+                if isinstance(user, tuple) and (k is False or (k is not True and user[1] in untested)):
+                    ctx.report('%s may have been set by %s (line %d) and is neither tested, moved nor freed before '
+                               'this exit' % (vname, user[3], user[2]), ev['line'] if ev else fn.endline,
+                               key=('unexamined', vname))
+            # remember only the outcomes of the calls that were handed this error object
+            mine_calls = {c.get('callee') for b, i, c in fn.calls() if c.get('callee') and any(
+                a.get('k') == 'un' and a.get('op') == '&' and is_ref(a['e']) and a['e'].get('id') == vid
+                for a in c['args'])}
+            # calls given this error whose result is stored in a variable that no condition of the function
+            # looks at
+            cond_ids = set()
+            for blk in fn.blocks.values():
+                t = blk.get('term')
+                if t and t.get('cond') is not None:
+                    cond_ids |= {x['id'] for x in walk(t['cond']) if is_ref(x) and 'id' in x}
+            untested = set()
+            for b, i, ev in fn.events():
+                for lhs, how, rhs in written_lvalues(ev):
+                    if is_ref(lhs) and lhs.get('kind') in ('local', 'param') and 'id' in lhs and isinstance(rhs, dict) \
+                            and rhs.get('k') == 'call' and lhs.get('id') not in cond_ids \
+                            and rhs.get('t') != 'void' and any(
+                                a.get('k') == 'un' and a.get('op') == '&' and is_ref(a['e']) and a['e'].get('id') == vid
+                                for a in rhs['args']):
+                        untested.add(rhs['id'])
+            # ... and the variables those outcomes are stored in
+            tv = set()
+            for b, i, ev in fn.events():
+                for lhs, how, rhs in written_lvalues(ev):
+                    if is_ref(lhs) and isinstance(rhs, dict) and rhs.get('k') == 'call' and rhs.get('callee') in mine_calls:
+                        tv.add(lhs['name'])
+            try:
+                ex = Explorer(fn, init='clean', on_event=on_event, on_exit=on_exit, calls=mine_calls,
+                              track=tv or None, cap=300000).run()
+            except AnalysisBroken:
+                r.note('%s: %s not decided (function too large for path enumeration)' % (fn.name, vname))
+                n -= 1
+                continue
+            key = '%s:%s' % (fn.name, vname)
+            if ex.reports:
+                for k, rep in ex.reports.items():
+                    r.violation(key, fn.name, fn.file, rep['line'], rep['reason'], rep['path'])
+            else:
+                r.ok(key)
+    r.note('%d local DBusError objects examined' % n)
+
+
 def c14_7(ck, prog):
     from rules.C09 import c09_2
     r7 = ck.rule('C14.7', 'a pending-reply slot is consumed only under an undo hook registered before the slot '
@@ -884,7 +975,10 @@ def run(ck):
         signature_pairing(ck, prog)
         c14_2d(ck, prog)
         c14_2e(ck, prog)
+        c14_2f(ck, prog)
         c14_7(ck, prog)
+        from rules.C12 import c12_6
+        c12_6(ck, prog, rid='C14.8')
         c14_3(ck, prog)
         c14_4(ck, prog)
         c14_5(ck, prog)
